@@ -80,7 +80,7 @@ impl SigT for [u64; 2] {
 fn decode(u: &mut Unstructured, big: bool) -> Case {
     let sig_words = u.int_in_range(1u8..=2).unwrap_or(2);
     let val_kind = u.int_in_range(0u8..=3).unwrap_or(0);
-    let offline = u.int_in_range(0u8..=9).unwrap_or(1) == 0 || (big && u.int_in_range(0u8..=2).unwrap_or(1) == 0);
+    let offline = u.int_in_range(0u8..=19).unwrap_or(1) == 0 || (big && u.int_in_range(0u8..=2).unwrap_or(1) == 0);
     let bucket_bits = u.int_in_range(0u32..=if offline { 4 } else { 8 }).unwrap_or(0);
     let max_shard_bits = u.int_in_range(0u32..=10).unwrap_or(0);
     let shard_bits = match u.int_in_range(0u8..=4).unwrap_or(0) {
@@ -240,7 +240,7 @@ impl Property for C18 {
         "C18"
     }
     fn plan(&self, tier: Tier) -> Vec<Segment> {
-        vec![Segment::random("stores", tier.pick(150_000, 1_500_000), &[0], 16, 300), Segment::random("big-stores", tier.pick(6_000, 60_000), &[1], 16, 300)]
+        vec![Segment::random("stores", tier.pick(100_000, 1_500_000), &[0], 16, 300), Segment::random("big-stores", tier.pick(6_000, 60_000), &[1], 16, 300)]
     }
     fn rule(&self) -> &'static str {
         "case = (signature type in {[u64;1],[u64;2]}, value type in {u8,u64,usize,EmptyVal}, online/offline, bucket bits 0..=8 (offline 0..=4), max shard bits 0..=10, requested shard bits 0..=max (fewer, equal, more than the bucket bits), a multiset of pairs whose high bits are uniform / all in one shard / in two adjacent shards / all ones / all zeros, with exact duplicates) decoded from bytes; oracle = a hash multiset of (home shard, sig, value) built from the pushed pairs; observed SigStore::len after every push, ShardStore::len, shard_sizes, two borrowed iterations and the consuming one: number of shards, each shard's length, home shard of every pair, multiset equality. Non-trivial: at least 2 non-empty shards and shard bits != bucket bits; distinct = distinct hash of the decoded case."
